@@ -181,7 +181,13 @@ func main() {
 		if *tier == "thorough" {
 			limit = 1 << 30
 		}
-		corpus := runCorpus(*repo, *verif, pr, limit, seed)
+		baseline := map[string]bool{}
+		for _, o := range all {
+			if o.Status != core.Held {
+				baseline[o.Key] = true
+			}
+		}
+		corpus := runCorpus(*repo, *verif, pr, limit, seed, baseline)
 		for _, r := range corpus {
 			if r.Status == "silent" || r.Status == "false-alarm" {
 				broken = append(broken, "corpus: "+r.Line())
@@ -359,7 +365,8 @@ func firstLine(s string) string {
 // runCorpus applies the recorded seeded defects (/verif/seeded/*/patch.diff whose meta.json lists this
 // property) and the behaviour-preserving refactorings (/verif/benign/*.diff) to the current tree in
 // memory and runs the property's rules on each: a seeded defect must be reported, a refactoring must not.
-func runCorpus(repo, verif string, pr *rules.Property, limit int, seed int) []mutantResult {
+// Only reports that are new with respect to the current tree (baseline) count.
+func runCorpus(repo, verif string, pr *rules.Property, limit int, seed int, baseline map[string]bool) []mutantResult {
 	type job struct {
 		kind, name, patch string
 		expect            []string
@@ -438,7 +445,7 @@ func runCorpus(repo, verif string, pr *rules.Property, limit int, seed int) []mu
 					continue
 				}
 				for _, o := range r.Run(mp) {
-					if o.Status != core.Held {
+					if o.Status != core.Held && !baseline[o.Key] {
 						violated = append(violated, o.Key)
 					}
 				}
